@@ -532,6 +532,7 @@ def arccos(u):
     cx.obligation(z3.And(u.t >= -1, u.t <= 1), "arccos argument outside [-1,1]")
     s = symx.sym_sqrt(1 - u * u)
     S = st()
+    S.log.append(("arccos", u))
 
     def extra(v):
         ax = [z3.Implies(u.t == 1, v == 0), z3.Implies(u.t == -1, v == 180), z3.Implies(u.t > 0, v < 90), z3.Implies(u.t < 0, v > 90),
@@ -581,6 +582,17 @@ def arctan2(y, x):
                                    z3.Implies(z3.And(x.t < 0, y.t < 0), v < -90),
                                    z3.Implies(z3.And(x.t == 0, y.t > 0), v == 90), z3.Implies(z3.And(x.t == 0, y.t < 0), v == -90)])
     return r
+
+
+def acos_monotone(theta):
+    """relate every arccos result of this path to the angle theta (a SAng whose value lies in
+    [0, 180] degrees): arccos is decreasing, arccos(cos theta) = theta"""
+    S = st()
+    ct = cos(theta if theta.k == 0 else deg2rad(theta))
+    d = theta.deg_term()
+    ctt = real_term(ct)
+    for (u, v) in S.cx.memo.get("trig_acos", []):
+        S.cx.axiom(z3.And(z3.Implies(u <= ctt, v >= d), z3.Implies(u >= ctt, v <= d)))
 
 
 def deg2rad(x):
